@@ -1752,7 +1752,7 @@ impl ParsedReturnType {
                                 }
                             }
                             _ => {
-                                if ident == result_ident {
+                                if ident == result_ident || ident == "Result" {
                                     let mut args = args.args.iter();
 
                                     let to_match =
